@@ -67,6 +67,25 @@ fn gen_desc_plan(seed: u64) -> DescPlan {
         }
         descs.push(DescSpec { name, help: r.pick(&help_pool).to_string(), consts, vars });
     }
+    // many labels (sizes that cross 8 / 16): the same descriptor twice with the labels in another
+    // order, and a third one with two values swapped
+    if r.chance(4) {
+        let n = *r.pick(&[9usize, 16, 17, 33]);
+        let consts: Vec<(String, String)> = (0..n).map(|i| (format!("l{:02}", i), split2(base, &mut r).1)).collect();
+        let d = DescSpec { name: "many".into(), help: "h".into(), consts, vars: vec!["v".into()] };
+        let mut e = d.clone();
+        r.shuffle(&mut e.consts);
+        let mut f = d.clone();
+        let (i, j) = (0, n - 1);
+        if f.consts[i].1 != f.consts[j].1 {
+            let t = f.consts[i].1.clone();
+            f.consts[i].1 = f.consts[j].1.clone();
+            f.consts[j].1 = t;
+        }
+        descs.push(d);
+        descs.push(e);
+        descs.push(f);
+    }
     // make sure equal pairs occur: duplicate one with shuffled labels
     if r.chance(60) {
         let mut d = r.pick(&descs).clone();
